@@ -127,9 +127,8 @@ def check_case(case):
                         for a in anchors(spec)):
                     # a shifted recurrence is a value like any other: it must
                     # survive the text round trip too
-                    from metomi.isodatetime import parsers
                     s2 = str(r2)
-                    again = parsers.TimeRecurrenceParser().parse(s2)
+                    again = RC.long_lived_parser().parse(s2)
                     if not (again == r2 and r2 == again):
                         fail = ("shift_roundtrip: mode %s (%s) %s %s prints %r "
                                 "which parses to %s" % (
@@ -168,8 +167,17 @@ def check_case(case):
                 classes.append("respell/" + ("equal" if eq else "not_equal"))
             else:
                 s = str(r)
-                from metomi.isodatetime import parsers
-                back = parsers.TimeRecurrenceParser().parse(s)
+                if case.get("premode"):
+                    # the same text went through the same long-lived parser
+                    # under another calendar mode first
+                    with M.use_mode(case["premode"]):
+                        try:
+                            RC.long_lived_parser().parse(s)
+                        except Exception:       # noqa: BLE001
+                            pass
+                    M.lib().Calendar.default().set_mode(mode)
+                    classes.append("reparsed_after_mode_switch")
+                back = RC.long_lived_parser().parse(s)
                 if not (back == r and r == back):
                     fail = "roundtrip_eq: mode %s %s prints %r which parses " \
                            "to %s" % (mode, text, s, M.sp(back))
@@ -202,7 +210,11 @@ def st_case(draw):
                 "op": draw(st.sampled_from(["r+d", "d+r", "r-(-d)"]))}
     if kind == "roundtrip":
         mode, spec = draw(RC.st_spec())
-        return {"kind": kind, "mode": mode, "spec": spec}
+        case = {"kind": kind, "mode": mode, "spec": spec}
+        if draw(st.sampled_from([False, True])):
+            case["premode"] = draw(st.sampled_from(
+                [m for m in R.CANON_MODES if m != R.canon(mode)]))
+        return case
     mode, spec = draw(RC.st_spec(
         interval_kind=draw(st.sampled_from(["exact", "exact", "nominal"]))))
     cm = R.canon(mode)
